@@ -27,7 +27,7 @@ ASSUMPTIONS = [
     "tau-stored operands are forward timelike (so that every intermediate stays representable); t-stored operands are arbitrary",
     "float64: |beta| <= 0.95; tolerance 1e-9 x gamma^2; mp: 1e-35/1e-20 x gamma^2",
 ]
-DRAWS = {"quick": 10, "thorough": 150}
+DRAWS = {"quick": 20, "thorough": 800}
 SHARD_TIMEOUT = {"quick": 900, "thorough": 7200}
 S4 = R.SYSTEMS[4]
 S3 = R.SYSTEMS[3]
